@@ -77,6 +77,10 @@ def main(tier, seed, replay=None):
                     gcase = c04.eval_readback_case(pr, code, jsonish[0])
                     fam = (gcase.get("payload") or "").split(":")[0]
                     if gcase.get("variant") == arm["variant"] and fam and fam != "json":
+                        if key == "default" and len([x for x in decl.values() if x is not None]) > 1:
+                            # C04's recorded defect seen from the other side: the fallback arm has no content dispatch
+                            known_hits.add("default-multi-media-no-dispatch")
+                            continue
                         viol.append((case, f"server sends variant {arm['variant']} (key {key}, status {code}) as JSON and {jsonish[0]} is declared for it, but the client decodes that response with its {fam} decoder"))
                 if got != arm["variant"]:
                     if key == "default" or arm["variant"] == "Unknown":
